@@ -1,3 +1,5 @@
+#[cfg(bpaf_verif)]
+use crate::verif::std;
 use std::ffi::OsString;
 
 pub(crate) use crate::arg::*;
@@ -428,6 +430,8 @@ mod inner {
         }
 
         pub(crate) fn remove(&mut self, index: usize) {
+            #[cfg(bpaf_verif)]
+            crate::verif::tick();
             if self.scope.contains(&index) && self.item_state[index].present() {
                 self.current = Some(index);
                 self.remaining -= 1;
@@ -474,6 +478,8 @@ mod inner {
         }
 
         pub(crate) fn len(&self) -> usize {
+            #[cfg(bpaf_verif)]
+            crate::verif::tick();
             self.remaining
         }
 
@@ -557,6 +563,8 @@ mod inner {
 
         /// Mark everything outside of `range` as removed
         pub(crate) fn set_scope(&mut self, scope: Range<usize>) {
+            #[cfg(bpaf_verif)]
+            crate::verif::tick();
             self.scope = scope;
             self.remaining = self.item_state[self.scope()]
                 .iter()
@@ -625,6 +633,8 @@ mod inner {
         type Item = (usize, &'a Arg);
 
         fn next(&mut self) -> Option<Self::Item> {
+            #[cfg(bpaf_verif)]
+            crate::verif::tick();
             loop {
                 let ix = self.cur;
                 if !self.args.scope.contains(&ix) {
